@@ -490,7 +490,7 @@ func runMapperConcCase(c mapperConcCase) *fail {
 		if j := strings.IndexByte(line, '\n'); j >= 0 {
 			line = line[:j]
 		}
-		sig := line[len("CHILD-VIOLATION [") : strings.IndexByte(line, ']')]
+		sig := line[len("CHILD-VIOLATION ["):strings.IndexByte(line, ']')]
 		return &fail{Sig: sig, Msg: line}
 	}
 	if strings.Contains(out, "fatal error: concurrent map") {
